@@ -129,6 +129,246 @@ def fam_conc(tier, seed, tag, nruns, geoms=("G1", "G2", "G2k", "G4"), policies=(
     return out
 
 
+def fam_wide(tier, seed, tag, nruns):
+    """sparse histories over images with many L1 entries (L1 table spanning
+    several blocks, empty L1 regions between populated ones): targeted reads
+    instead of full sweeps"""
+    rng = random.Random(seed * 2654435761 % (1 << 31) + zlib.crc32(tag.encode()) % 1000)
+    out = []
+    for i in range(nruns):
+        if i % 2 == 0:
+            geo = dict(cb=9, ro=4, bsb=9, vclusters=64 * rng.choice([66, 70, 130]), params={"l2": [9, 1024], "rb": [9, 1024]})
+        else:
+            geo = dict(cb=10, ro=4, bsb=9, vclusters=128 * rng.choice([5, 9]), params={"l2": [9, 1536], "rb": [9, 1024]})
+        bpc = 1 << (geo["cb"] - geo["bsb"])
+        l2n = (1 << geo["cb"]) // 8
+        nl1 = geo["vclusters"] // l2n
+        # populated L1 indices: first, some beyond one L1 block, the last
+        pop = sorted(set([0, nl1 - 1] + [rng.randrange(nl1) for _ in range(3)] + ([64, 65] if nl1 > 66 else [2])))
+        images = [S.image_plain(geo, "build", shuffle=rng.randrange(1 << 20))]
+        touched = set()
+        steps = []
+
+        def rd():
+            for c in sorted(touched):
+                steps.append({"op": "read", "gb": c * bpc, "n": bpc})
+
+        for k in range(rng.randrange(10, 22)):
+            i1 = rng.choice(pop)
+            c = i1 * l2n + rng.choice([0, 1, l2n - 1, rng.randrange(l2n)])
+            r = rng.random()
+            if r < 0.6:
+                n = rng.choice([1, bpc, 2 * bpc + 1])
+                gb = c * bpc + rng.randrange(bpc)
+                n = max(1, min(n, geo["vclusters"] * bpc - gb))
+                steps.append({"op": "write", "gb": gb, "n": n})
+                for b in range(gb, gb + n):
+                    touched.add(b // bpc)
+            elif r < 0.75:
+                # discard spanning empty L1 regions: starts mid-way in one L1 region, ends in another
+                a, b_ = sorted([rng.choice(pop), rng.choice(pop)])
+                lo = a * l2n + rng.choice([0, l2n // 2, l2n - 2])
+                hi = min(geo["vclusters"], b_ * l2n + rng.choice([1, 2, l2n // 2, l2n]))
+                if rng.random() < 0.5 and a > 0:
+                    lo = (a - 1) * l2n + l2n // 2 + rng.randrange(3)      # start inside an (often empty) region before
+                steps.append({"op": "discard_raw", "off": str(lo << geo["cb"]), "len": str(max(1, hi - lo) << geo["cb"])})
+                rd()
+            elif r < 0.9:
+                steps.append({"op": "flush"})
+                if rng.random() < 0.4:
+                    steps.append({"op": "reopen"})
+                    rd()
+            else:
+                steps.append({"op": "shrink"})
+        rd()
+        steps += [{"op": "flush"}]
+        rd()
+        steps += [{"op": "reopen"}]
+        rd()
+        out.append(S.mk(f"{tag}-{i}", geo, images, steps))
+    return out
+
+
+def fam_cowread(tier, seed, tag, nruns):
+    """reads overlapping copy-on-write in time: partial writes over backing /
+    compressed clusters with concurrent reads of the same and neighbouring clusters"""
+    rng = random.Random(seed * 6151 + zlib.crc32(tag.encode()) % 1000)
+    G = S.geoms(tier)
+    names = ["G1", "G2", "G2k", "G3a", "G6"]
+    out = []
+    for i in range(nruns):
+        geo = dict(G[names[i % len(names)]])
+        geo["vclusters"] = min(geo["vclusters"], 32)
+        vc = geo["vclusters"]
+        bpc = 1 << (geo["cb"] - geo["bsb"])
+        images = [S.image_shaped(rng, geo, 1, frac=0.4, kinds=("comp", "comp", "data", "zero")),
+                  S.image_shaped(rng, geo, 2, frac=0.8, kinds=("data",), vclusters=vc + rng.choice([0, -6, 4]))]
+        steps = []
+        for g_ in range(rng.randrange(2, 5)):
+            c = rng.randrange(vc)
+            off = rng.randrange(bpc)
+            ops = [{"op": "write", "gb": c * bpc + off, "n": max(1, min(rng.choice([1, bpc - off, bpc]), vc * bpc - (c * bpc + off)))}]
+            for k in range(rng.randrange(1, 4)):
+                c2 = max(0, min(vc - 1, c + rng.choice([0, 0, 0, 1, -1])))
+                ops.append({"op": "read", "gb": c2 * bpc, "n": min(bpc * rng.choice([1, 2]), vc * bpc - c2 * bpc)})
+            if rng.random() < 0.3:
+                c3 = max(0, min(vc - 1, c + rng.choice([0, 1])))
+                ops.append({"op": "write", "gb": c3 * bpc + rng.randrange(bpc), "n": 1})
+            rng.shuffle(ops)
+            steps.append({"op": "par", "ops": ops})
+            steps.append({"op": "sweep"})
+        steps += [{"op": "flush"}, {"op": "sweep"}, {"op": "reopen"}, {"op": "sweep"}]
+        out.append(S.mk(f"{tag}-{i}", geo, images, steps, sched={"policy": ["random", "pct"][i % 2], "seed": rng.randrange(1 << 30)}))
+    return out
+
+
+def fam_allocstress(tier, seed, tag, nruns):
+    """multi-cluster writes and fragmenting discards on geometries with small
+    refblock slices (allocation across slice boundaries, fragment retry)"""
+    rng = random.Random(seed * 7727 + zlib.crc32(tag.encode()) % 1000)
+    out = []
+    gl = [dict(cb=12, ro=6, bsb=9, vclusters=160, params={"l2": [9, 1024], "rb": [9, 1024]}),
+          dict(cb=9, ro=6, bsb=9, vclusters=200, params={"l2": [9, 1024], "rb": [9, 1024]}),
+          dict(cb=10, ro=5, bsb=9, vclusters=160, params={"l2": [9, 1024], "rb": [9, 1024]})]
+    for i in range(nruns):
+        geo = gl[i % len(gl)]
+        bpc = 1 << (geo["cb"] - geo["bsb"])
+        vc = geo["vclusters"]
+        steps = []
+        nxt = 0
+        if i % 2 == 1:
+            # directed: fill past a refblock-slice boundary, punch an isolated hole before the
+            # boundary, free the tail of that slice and a run behind the head of the next one,
+            # then allocate a run longer than the tail
+            ro = geo["ro"]
+            ent = (512 * 8) >> ro                    # refcounts per 512-byte slice
+            fill = min(vc - 1, ent + 30)
+            steps += [{"op": "write", "gb": c * bpc, "n": bpc} for c in range(fill)]
+            steps.append({"op": "flush"})
+            # host cluster index ~ guest index + metadata clusters already allocated
+            for shift in (rng.randrange(3, 12),):
+                b = ent - shift                       # guest cluster whose host cluster is near the slice end
+                hole = max(0, b - rng.randrange(8, 20))
+                steps.append({"op": "discard", "gb": hole * bpc, "n": bpc})
+                t = rng.randrange(1, 4)
+                steps.append({"op": "discard", "gb": max(0, b - t) * bpc, "n": t * bpc})
+                j = rng.randrange(1, 3)
+                steps.append({"op": "discard", "gb": (b + j) * bpc, "n": rng.randrange(6, 10) * bpc})
+            steps.append({"op": "flush"})
+            c0 = min(vc - 9, fill + 2)
+            steps.append({"op": "write", "gb": c0 * bpc, "n": rng.choice([6, 8]) * bpc})
+            steps += [{"op": "flush"}, {"op": "sweep"}]
+        for k in range(rng.randrange(30, 60)):
+            r = rng.random()
+            if r < 0.55:
+                ncl = rng.choice([1, 1, 2, 3, 5, 8, 12])
+                c = nxt if rng.random() < 0.7 else rng.randrange(vc)
+                ncl = max(1, min(ncl, vc - c))
+                steps.append({"op": "write", "gb": c * bpc, "n": ncl * bpc})
+                nxt = (c + ncl) % vc
+            elif r < 0.85:
+                c = rng.randrange(vc)
+                ncl = max(1, min(rng.choice([1, 1, 2, 3, 8]), vc - c))
+                steps.append({"op": "discard", "gb": c * bpc, "n": ncl * bpc})
+            elif r < 0.95:
+                steps.append({"op": "flush"})
+            else:
+                steps += [{"op": "flush"}, {"op": "reopen"}]
+        steps += [{"op": "sweep"}, {"op": "flush"}, {"op": "sweep"}, {"op": "reopen"}, {"op": "sweep"}]
+        out.append(S.mk(f"{tag}-{i}", geo, [S.image_plain(geo, "build", shuffle=rng.randrange(1 << 20), holes=rng.choice([0, 2]))], steps))
+    return out
+
+
+def fam_conc_disjoint(tier, seed, tag, nruns):
+    """concurrent calls on DISJOINT guest ranges (so the flat model is the same
+    for every linearization: crash / sync predicates are not speculative),
+    overlapped with flush_meta and fsync"""
+    rng = random.Random(seed * 9973 + zlib.crc32(tag.encode()) % 1000)
+    G = S.geoms(tier)
+    names = ["G1", "G2", "G2k", "G4"]
+    out = []
+    for i in range(nruns):
+        geo = G[names[i % len(names)]]
+        bpc = 1 << (geo["cb"] - geo["bsb"])
+        vc = geo["vclusters"]
+        images = [S.image_shaped(rng, geo, 1, frac=rng.choice([0.0, 0.2]), kinds=("data", "zero"))]
+        steps = []
+        used = set()
+
+        def fresh_cluster():
+            for _ in range(50):
+                c = rng.randrange(vc)
+                if c not in used:
+                    used.add(c)
+                    return c
+            return rng.randrange(vc)
+
+        for _ in range(rng.randrange(1, 4)):
+            c = fresh_cluster()
+            steps.append({"op": "write", "gb": c * bpc + rng.randrange(bpc), "n": 1})
+        steps += [{"op": "flush"}, {"op": "fsync"}]
+        for g_ in range(rng.randrange(2, 4)):
+            ops = []
+            for k in range(rng.randrange(2, 4)):
+                c = fresh_cluster()
+                if rng.random() < 0.8:
+                    ops.append({"op": "write", "gb": c * bpc + rng.randrange(bpc), "n": rng.choice([1, bpc])})
+                else:
+                    ops.append({"op": "discard", "gb": c * bpc, "n": bpc})
+            ops.insert(rng.randrange(len(ops) + 1), {"op": "flush"})
+            if rng.random() < 0.4:
+                ops.append({"op": "flush"})
+            steps.append({"op": "par", "ops": ops})
+            steps += [{"op": "flush"}, {"op": "fsync"}]
+            if rng.random() < 0.5:
+                # same cluster, different blocks: two sub-cluster writers
+                c = fresh_cluster()
+                if bpc > 1:
+                    steps.append({"op": "par", "ops": [{"op": "write", "gb": c * bpc, "n": 1}, {"op": "write", "gb": c * bpc + 1, "n": 1}]})
+                    steps += [{"op": "flush"}, {"op": "fsync"}]
+        steps += [{"op": "sweep"}]
+        out.append(S.mk(f"{tag}-{i}", geo, images, steps, sched={"policy": ["random", "pct"][i % 2], "seed": rng.randrange(1 << 30)}))
+    return out
+
+
+def fam_same_target(tier, seed, tag, nruns):
+    """several calls aimed at the SAME cluster while its L2 slice is cold
+    (after shrink_caches / reopen): discard x discard, discard x write,
+    write x write, with another writer allocating in between"""
+    rng = random.Random(seed * 4447 + zlib.crc32(tag.encode()) % 1000)
+    G = S.geoms(tier)
+    names = ["G1", "G2", "G2k", "G4", "G6"]
+    out = []
+    for i in range(nruns):
+        geo = G[names[i % len(names)]]
+        bpc = 1 << (geo["cb"] - geo["bsb"])
+        vc = geo["vclusters"]
+        cs = [rng.randrange(vc) for _ in range(3)]
+        steps = [{"op": "write", "gb": c * bpc, "n": bpc} for c in cs]
+        steps += [{"op": "flush"}, rng.choice([{"op": "shrink"}, {"op": "reopen"}])]
+        for g_ in range(rng.randrange(1, 4)):
+            c = rng.choice(cs)
+            kind = rng.choice(["dd", "dd", "dw", "ww", "ddw"])
+            other = rng.randrange(vc)
+            ops = {"dd": [{"op": "discard", "gb": c * bpc, "n": bpc}, {"op": "discard", "gb": c * bpc, "n": bpc}],
+                   "dw": [{"op": "discard", "gb": c * bpc, "n": bpc}, {"op": "write", "gb": c * bpc + rng.randrange(bpc), "n": 1}],
+                   "ww": [{"op": "write", "gb": c * bpc, "n": 1}, {"op": "write", "gb": c * bpc + bpc - 1, "n": 1}],
+                   "ddw": [{"op": "discard", "gb": c * bpc, "n": bpc}, {"op": "discard", "gb": max(0, c - 1) * bpc, "n": 2 * bpc},
+                           {"op": "write", "gb": c * bpc, "n": bpc}]}[kind]
+            ops.append({"op": "write", "gb": other * bpc, "n": bpc})
+            if rng.random() < 0.4:
+                ops.append({"op": "write", "gb": rng.randrange(vc) * bpc, "n": bpc})
+            rng.shuffle(ops)
+            steps.append({"op": "par", "ops": ops})
+            steps += [{"op": "sweep"}, {"op": "flush"}]
+            if rng.random() < 0.6:
+                steps.append({"op": "shrink"})
+        steps += [{"op": "sweep"}, {"op": "flush"}, {"op": "reopen"}, {"op": "sweep"}]
+        out.append(S.mk(f"{tag}-{i}", geo, [S.image_plain(geo, "build", shuffle=rng.randrange(1 << 20))], steps,
+                        sched={"policy": ["random", "pct"][i % 2], "seed": rng.randrange(1 << 30)}))
+    return out
+
+
 def fam_regress():
     """the failing histories of every finding fixed so far (regress/*.json):
     a fixed entry suppresses nothing, so these are re-checked on every run"""
@@ -285,6 +525,7 @@ def check_C01(chk):
     n = 48 if chk.tier == "quick" else 600
     scens = fam_seq(chk.tier, chk.seed, "c01", n, 24 if chk.tier == "quick" else 40)
     scens += fam_backing(chk.tier, chk.seed, "c01b", n // 2, 16)
+    scens += fam_wide(chk.tier, chk.seed, "c01w", 6 if chk.tier == "quick" else 60)
     scens += fam_regress()
     res, st = Q.run_batch(scens, chk.wd, known=chk.known_tags(), par=12)
     chk.consume(res, st, props=("C01",))
@@ -300,6 +541,7 @@ def check_C02(chk):
     w = dict(write=40, read=10, discard=10, flush=14, shrink=8, reopen=10)
     scens = fam_seq(chk.tier, chk.seed, "c02", n, 28 if chk.tier == "quick" else 50, weights=w, sweep_every=0)
     scens += fam_backing(chk.tier, chk.seed, "c02b", n // 2, 18)
+    scens += fam_wide(chk.tier, chk.seed, "c02w", 8 if chk.tier == "quick" else 80)
     scens += fam_regress()
     res, st = Q.run_batch(scens, chk.wd, known=chk.known_tags(), par=12)
     chk.consume(res, st, props=("C02",))
@@ -315,6 +557,8 @@ def check_C03(chk):
     scens = fam_seq(chk.tier, chk.seed, "c03", n, 28 if chk.tier == "quick" else 50, sweep_every=0,
                     weights=dict(write=45, discard=18, flush=12, shrink=5, reopen=5, read=5))
     scens += fam_backing(chk.tier, chk.seed, "c03b", n // 2, 18)
+    scens += fam_allocstress(chk.tier, chk.seed, "c03a", 9 if chk.tier == "quick" else 90)
+    scens += fam_wide(chk.tier, chk.seed, "c03w", 4 if chk.tier == "quick" else 40)
     scens += fam_regress()
     res, st = Q.run_batch(scens, chk.wd, known=chk.known_tags(), par=12)
     chk.consume(res, st, props=("C03",))
@@ -344,6 +588,7 @@ def check_C04(chk):
     scens = fam_seq(chk.tier, chk.seed, "c04", n, 14 if chk.tier == "quick" else 24, weights=w, sweep_every=0,
                     geoms=["G1", "G2", "G2k", "G4", "G3a", "G6"])
     scens += fam_backing(chk.tier, chk.seed, "c04b", n // 3, 10)
+    scens += fam_conc_disjoint(chk.tier, chk.seed, "c04c", 40 if chk.tier == "quick" else 600)
     scens += fam_regress()
     res, st = Q.run_batch(scens, chk.wd, mode="crash", known=chk.known_tags(), par=14)
     chk.consume(res, st, props=("C04",))
@@ -362,6 +607,7 @@ def check_C05(chk):
     scens = fam_seq(chk.tier, chk.seed, "c05", n, 16 if chk.tier == "quick" else 26, weights=w, sweep_every=0,
                     geoms=["G1", "G2", "G2k", "G4", "G3a", "G6"])
     scens += fam_backing(chk.tier, chk.seed, "c05b", n // 3, 10)
+    scens += fam_conc_disjoint(chk.tier, chk.seed, "c05c", 40 if chk.tier == "quick" else 600)
     scens += fam_regress()
     res, st = Q.run_batch(scens, chk.wd, mode="crash", known=chk.known_tags(), par=14)
     chk.consume(res, st, props=("C05",))
@@ -375,7 +621,9 @@ def check_C05(chk):
 def check_C06(chk):
     n = 120 if chk.tier == "quick" else 3000
     scens = fam_conc(chk.tier, chk.seed, "c06", n)
+    scens += fam_same_target(chk.tier, chk.seed, "c06s", 40 if chk.tier == "quick" else 600)
     scens += fam_conc(chk.tier, chk.seed, "c06b", n // 4, backing=True)
+    scens += fam_cowread(chk.tier, chk.seed, "c06r", 30 if chk.tier == "quick" else 500)
     res, st = Q.run_batch(scens, chk.wd, known=chk.known_tags(), par=14)
     chk.consume(res, st, props=("C06", "C01", "C02"))
     for name, r in res.items():
@@ -504,6 +752,7 @@ def check_C10(chk):
                 steps.append({"op": "shrink"})
         steps += [{"op": "sweep"}, {"op": "flush"}, {"op": "sweep"}, {"op": "reopen"}, {"op": "sweep"}]
         scens.append(S.mk(f"c10t-{i}", geo, images, steps))
+    scens += fam_cowread(chk.tier, chk.seed, "c10r", 40 if chk.tier == "quick" else 600)
     scens += fam_regress()
     res, st = Q.run_batch(scens, chk.wd, known=chk.known_tags(), par=14)
     chk.consume(res, st, props=("C10", "C01", "C02", "C03", "PANIC"))
@@ -554,6 +803,7 @@ def check_C11(chk):
                 steps.append({"op": "flush"})
         steps += [{"op": "flush"}, {"op": "sweep"}, {"op": "reopen"}, {"op": "sweep"}]
         scens.append(S.mk(f"c11-{i}", geo, images, steps))
+    scens += fam_wide(chk.tier, chk.seed, "c11w", 10 if chk.tier == "quick" else 100)
     scens += fam_regress()
     res, st = Q.run_batch(scens, chk.wd, known=chk.known_tags(), par=14)
     chk.consume(res, st, props=("C11", "C01", "C02", "C03", "C07", "PANIC"))
@@ -780,6 +1030,10 @@ def check_C08(chk):
             # header + reftable + refblock + l1 + l2 tables + working set + one refblock span of slack
             bound = 1 + 1 + 2 + 1 + 2 + ws + 8
             scens.append(S.mk(f"c08r-{i}", geo, [img], steps, sample_ram=True, bound_clusters=bound))
+    st_ = fam_same_target(chk.tier, chk.seed, "c08s", 30 if chk.tier == "quick" else 400)
+    for s_ in st_:
+        s_["sample_ram"] = True
+    scens += st_
     res, st = Q.run_batch(scens, chk.wd, known=chk.known_tags(), par=14)
     chk.consume(res, st, props=("C08", "C07", "PANIC"))
     for name, r in res.items():
